@@ -131,6 +131,8 @@ impl<'a, R: RealNumberInternalTrait> Default for LibraryLoader<'a, R> {
 
 pub struct Interpreter<'a, R: RealNumberInternalTrait> {
     pub env: Rc<Environment<R>>,
+    // macros defined through this interpreter; kept across eval calls, not shared
+    syntax_env: Rc<LexicalScope<Transformer>>,
     lib_loader: LibraryLoader<'a, R>,
     // libraries instantiated so far: every import of a library refers to one instance
     libraries: HashMap<LibraryName, Library<R>>,
@@ -150,6 +152,7 @@ impl<'a, R: RealNumberInternalTrait> Interpreter<'a, R> {
     pub fn with_environment(environment: Rc<Environment<R>>) -> Self {
         let mut interpreter = Self {
             env: environment,
+            syntax_env: new_syntax_environment(),
             lib_loader: LibraryLoader::default(),
             libraries: HashMap::new(),
             imported_library: HashSet::new(),
@@ -724,7 +727,7 @@ impl<'a, R: RealNumberInternalTrait> Interpreter<'a, R> {
     pub fn eval(&mut self, char_stream: impl Iterator<Item = char>) -> Result<Option<Value<R>>> {
         {
             let lexer = Lexer::from_char_stream(char_stream);
-            let mut parser = Parser::from_lexer(lexer);
+            let mut parser = Parser::from_lexer_with_syntax(lexer, self.syntax_env.clone());
             parser.try_fold(None, |_, statement| self.eval_root_ast(&statement?))
         }
     }
